@@ -58,8 +58,9 @@ package credential
 //@   ensures [did-iff-ok] isNilIface(result.1) <==> result.0 != nil
 
 //@ func PresentationSigner
-//@   prop C01 C17 C19
+//@   prop C01 C16 C17 C19
 //@   safety
+//@   assume-benign
 //@   ensures [did-iff-ok] isNilIface(result.1) <==> result.0 != nil
 
 //@ func ParseLDProof
